@@ -114,6 +114,7 @@ class Gen:
         return f"v{self.k}"
 
     keyword_operators = 0.04
+    negative_indices = 0.15
 
     def op(self, name, seq, *args):
         kws = []
@@ -140,7 +141,12 @@ class Gen:
                 return
             if sh[0] in ("tup", "lst"):
                 for i, s in enumerate(sh[1]):
-                    walk(sub(e, C(i)), s, depth + 1)
+                    if r.random() < self.negative_indices:
+                        # the same element counted from the end: t[-1] is a constant index too
+                        self.feat.add("negative-constant-index")
+                        walk(sub(e, ast.UnaryOp(op=ast.USub(), operand=C(len(sh[1]) - i))), s, depth + 1)
+                    else:
+                        walk(sub(e, C(i)), s, depth + 1)
             elif sh[0] == "dic":
                 for k, s in sh[1].items():
                     if r.random() < 0.5:
